@@ -40,6 +40,16 @@ RULE_POLICY = ("policy: programs of 10-120 commands (stores, overwrites, appends
                "live set (C15); a recording Cache between RandomPolicy and MemoryStore observes the victims, which are fed to the Lean model as the choice "
                "tape (the model validates every choice); accounted usage (hook), stored bytes and content are compared after every command.")
 
+PROPS.update({
+    "C17": {"suites": {"quick": [("server", {"count": 32})], "thorough": [("server", {"count": 600})]}, "design": "6/C17"},
+})
+
+RULE_SERVER = ("server: scripted connection life-cycles against a real MemcacheTcpServer (limits 1-4, idle timeout 1 s, many more connections than the limit): "
+               "connections are opened and ended by client close, quit, quitq, disconnect in the middle of a request, protocol error, oversized item then close, "
+               "and idle timeout (with some connections kept alive); after every event each open connection is probed with a noop to see who is served; every script "
+               "ends by closing everything and opening limit+1 fresh connections. Scripts run in parallel, each against its own server; the served sets are compared "
+               "with the Lean model of the accept loop and checked against the limit directly.")
+
 RULE_STREAM = ("codec/conn: pipelined request streams (standard loud and quiet commands of every opcode, unimplemented opcodes, frames with "
                "unexpected extras/value, bodies above the item limit for any opcode, quit/quitq at any position, optionally a truncated or "
                "invalid-header tail) are cut into consecutive reads: every single cut (or a directed sample around header and frame boundaries), "
@@ -159,7 +169,7 @@ def run_check(prop, tier, seed, replay):
         stream_suite = name.startswith("codec") or name.startswith("conn") or name.startswith("grid")
         proj_suite = stream_suite or name.startswith("policy")
         for (a, b, i) in run.divergences(cfg.get("projection") if (proj_suite and cfg.get("projection")) else None):
-            if name.startswith("corpus") or name == "replay" or name.startswith("policy"):
+            if name.startswith("corpus") or name == "replay" or name.startswith("policy") or name.startswith("server"):
                 own, why = {prop}, f"witness replay differs at '{run.ops[i][:40]}'"
             elif stream_suite:
                 own, why = {prop}, f"framing differs at '{run.ops[i][:40]}'"
@@ -243,7 +253,7 @@ def finish(prop, tier, seed, t0, lean, n_obl, n_dis, stats, violations, known_hi
             "trusted_base": core.TRUSTED,
             "obligation_list": [{"name": o["name"], "axioms": o["axioms"]} for o in lean["obligations"]],
             "source_scan_hits": scan,
-            "evaluations": evals, "distinct_nontrivial": dn, "rule": RULE_STREAM if any(s.get("suite") in ("codec", "conn", "grid") for s in stats) else (RULE_POLICY if any(s.get("suite") == "policy" for s in stats) else RULE),
+            "evaluations": evals, "distinct_nontrivial": dn, "rule": RULE_STREAM if any(s.get("suite") in ("codec", "conn", "grid") for s in stats) else (RULE_POLICY if any(s.get("suite") == "policy" for s in stats) else (RULE_SERVER if any(s.get("suite") == "server" for s in stats) else RULE)),
             "samples": samples or [],
             "correspondence_runs": stats,
             "lines_compared": sum(s.get("lines", 0) for s in stats),
